@@ -37,9 +37,9 @@ const (
 	OpBNot
 	OpULt
 	OpSLt
-	OpZExt  // K = extra bits
-	OpSExt  // K = extra bits
-	OpExtr  // K = hi<<8|lo
+	OpZExt // K = extra bits
+	OpSExt // K = extra bits
+	OpExtr // K = hi<<8|lo
 	OpConcat
 )
 
